@@ -160,21 +160,29 @@ def norm_stream(toks, d):
 
 
 def strip_setop_parens(stream):
-    """set operands may or may not be wrapped: drop '(' directly before SELECT and its matching ')'"""
-    out = []
-    stack = []
+    """set operands may or may not be wrapped (MySQL leaves them bare): drop a pair of parentheses around a SELECT only where it
+    encloses an operand of a set operation, i.e. stands directly before / after UNION, INTERSECT, EXCEPT, MINUS [ALL]; every
+    other pair (scalar subquery, IN, FROM, ...) is part of the statement in all dialects and stays"""
+    setw = {("W", "UNION"), ("W", "INTERSECT"), ("W", "EXCEPT"), ("W", "MINUS")}
+    n = len(stream)
+    match, stack = {}, []
     for i, x in enumerate(stream):
         if x == ("OP", "("):
-            nxt = stream[i + 1] if i + 1 < len(stream) else None
-            if nxt in (("W", "SELECT"), ("OP", "("), ("W", "WITH")):
-                stack.append("drop")
-                continue
-            stack.append("keep")
-        elif x == ("OP", ")"):
-            if stack and stack.pop() == "drop":
-                continue
-        out.append(x)
-    return out
+            stack.append(i)
+        elif x == ("OP", ")") and stack:
+            match[stack.pop()] = i
+    drop = set()
+    for i, j in match.items():
+        if i + 1 < n and stream[i + 1] in (("W", "SELECT"), ("W", "WITH"), ("OP", "(")):
+            before = stream[i - 1] if i > 0 else None
+            before2 = stream[i - 2] if i > 1 else None
+            after = stream[j + 1] if j + 1 < n else None
+            later_operand = before in setw or (before == ("W", "ALL") and before2 in setw)
+            first_operand = after in setw and before in (None, ("OP", "("))  # (an IN list / a scalar subquery before UNION is not)
+            if later_operand or first_operand:
+                drop.add(i)
+                drop.add(j)
+    return [x for i, x in enumerate(stream) if i not in drop]
 
 
 def conformance(toks, d, leaf, inner_cls, sql):
@@ -359,10 +367,12 @@ def run_case(case):
     leaf, path, inner_cls = case["leaf"], case["path"], case["inner"]
     res.states.append(h64(json.dumps([leaf, path, inner_cls])))
     streams = {}
+    setop_rejected, rendered_for = {}, []
     for d in fp.CTX:
         lexd = "sqlite" if d == "generic" else d
         if inner_cls == "generic" and d == "generic":
             continue
+        rendered_for.append(d)
         p = build_prog(leaf, path, inner_cls, d)
         try:
             o = prog.build(p, dialect=d)
@@ -395,7 +405,8 @@ def run_case(case):
                 sql, vals = prog.render(o, d, param=param)
             except Exception as e:
                 if type(e).__name__ == "SetOperationException":
-                    continue  # operands of different arity (two-column leaf inside a set operation): rightly rejected
+                    setop_rejected[d] = str(e)[:120]
+                    continue  # operands of different arity (two-column leaf inside a set operation): rightly rejected - by every dialect
                 res.violate("C08|raises|%s|%s" % (d, type(e).__name__), "rendering raised", leaf=leaf, path=path, inner=inner_cls, error=str(e)[:200])
                 continue
             res.outcomes.append(h64(sql))
@@ -428,6 +439,10 @@ def run_case(case):
                                 dialect=d, leaf=leaf, path=path, inner=inner_cls, sql=sql, values=fp.vrepr(vals))
             if leaf in NEUTRAL:
                 streams[(d, param)] = strip_setop_parens(norm_stream(toks, d))
+    if setop_rejected and set(setop_rejected) != set(rendered_for):
+        for d in sorted(setop_rejected):
+            res.violate("C08|raises|%s|SetOperationException" % d, "the program renders under other dialect classes but is rejected under this one",
+                        dialect=d, leaf=leaf, path=path, inner=inner_cls, error=setop_rejected[d], renders_under=sorted(set(rendered_for) - set(setop_rejected)))
     # (2) cross-dialect identity for the neutral subset
     if leaf in NEUTRAL:
         for param in (False, True):
